@@ -399,6 +399,34 @@ class Harness:
             return p
         self._patch(sp.StateStore, "save_state", save_w)
 
+        # data-flow observation for the SysData model (log only: no scheduling points are added)
+        import pamiq_core.data.interface as di
+        orig_update = di.DataUser.update
+        orig_dsave = di.DataUser.save_state
+        H._in_data_save = False
+
+        def update_w(self_: Any) -> Any:
+            r = orig_update(self_)
+            if not H._in_data_save:
+                s.log("data", "update", len(self_._timestamps))
+            return r
+
+        def dsave_w(self_: Any, path: Any) -> Any:
+            s.log("data", "write", "data")
+            H._in_data_save = True
+            try:
+                return orig_dsave(self_, path)
+            finally:
+                H._in_data_save = False
+        self._patch(di.DataUser, "update", update_w)
+        self._patch(di.DataUser, "save_state", dsave_w)
+        orig_tsave = ptime.TimeController.save_state
+
+        def tsave_w(self_: Any, path: Any) -> Any:
+            s.log("data", "write", "time")
+            return orig_tsave(self_, path)
+        self._patch(ptime.TimeController, "save_state", tsave_w)
+
         # command queue observation
         import queue as _q
 
@@ -491,6 +519,7 @@ class Harness:
                                     max_attempts_to_pause_all_threads=sc.max_attempts))
                 self.in_prelaunch = False
                 saved_state_path = sorted((self.tmp / "states").glob("*.state"))[-1]
+                self.prelaunch_files = self.read_tree(saved_state_path)
                 # forget the preparatory run: fresh components, fresh trace
                 del s.events[:]
                 del s.times[:]
@@ -499,6 +528,7 @@ class Harness:
                 self.threads_by_status.clear()
                 comps = build_components(self)
                 s.log("prelaunch_done", str(saved_state_path.name))
+                s.log("data", "init", self.prelaunch_files)
             cfg = LaunchConfig(
                 saved_state_path=saved_state_path,
                 states_dir=self.tmp / "states", save_state_condition=save_cond,
@@ -571,7 +601,7 @@ class _Cb:
         except KeyboardInterrupt:
             s.log("cb_raise", f"{self.comp}.{self.name}", "interrupt")
             raise
-        for f in H.sc.faults:
+        for f in ([] if H.in_prelaunch else H.sc.faults):     # the preparatory launch runs fault-free
             if f["comp"] == self.comp and f["cb"] == self.name and f["k"] == self.k:
                 s.log("cb_raise", f"{self.comp}.{self.name}", self.k)
                 raise InjectedFault(f"{self.comp}.{self.name}#{self.k}")
@@ -609,6 +639,8 @@ def build_components(H: Harness) -> dict:
                 self.steps += 1
                 if self.collector is not None:
                     self.collector.collect(self.steps)
+                if self.name == "agent":
+                    H.sched.log("data", "agentStep", self.steps)
             for c in self._agents.values():
                 c.step(observation)
             return self.steps
@@ -627,6 +659,8 @@ def build_components(H: Harness) -> dict:
             with H.cb(self.name, "save"):
                 path.mkdir()
                 (path / "steps").write_text(str(self.steps))
+                if self.name == "agent":
+                    H.sched.log("data", "write", "agent")
             super().save_state(path)
 
         def load_state(self, path: Path) -> None:
@@ -653,11 +687,13 @@ def build_components(H: Harness) -> dict:
         def observe(self) -> Any:
             with H.cb("env", "observe"):
                 self.observed += 1
+                H.sched.log("data", "envObserve", self.observed)
             return self.observed
 
         def affect(self, action: Any) -> None:
             with H.cb("env", "affect"):
                 self.affected += 1
+                H.sched.log("data", "envAffect", self.affected)
 
         def on_paused(self) -> None:
             with H.cb("env", "on_paused"):
@@ -671,6 +707,7 @@ def build_components(H: Harness) -> dict:
             with H.cb("env", "save"):
                 path.mkdir()
                 (path / "counts").write_text(f"{self.observed},{self.affected}")
+                H.sched.log("data", "write", "env")
 
         def load_state(self, path: Path) -> None:
             with H.cb("env", "load"):
@@ -695,6 +732,7 @@ def build_components(H: Harness) -> dict:
         def train(self) -> None:
             with H.cb(self.name, "train"):
                 self.runs += 1
+                H.sched.log("data", "trainRun", int(self.name[7:]))
                 self.seen = len(self.user.get_data())
 
         def teardown(self) -> None:
@@ -713,6 +751,7 @@ def build_components(H: Harness) -> dict:
             with H.cb(self.name, "save"):
                 super().save_state(path)
                 (path / "runs").write_text(str(self.runs))
+                H.sched.log("data", "write", f"trainer {int(self.name[7:])}")
 
         def load_state(self, path: Path) -> None:
             with H.cb(self.name, "load"):
